@@ -52,7 +52,7 @@ def gen_rhs(rng, vk, shape, form):
         if vk == 'i':
             v = rng.choice([7, -3, np.int64(11)])
         if vk == 'f':
-            v = rng.choice([2.5, -0.25, float('nan'), np.float64(6.5)])
+            v = rng.choice([2.5, -0.25, float('nan'), np.float64(6.5), np.float32(1.5), np.float16(0.5)])
         return v
     size = int(np.prod(shape)) if len(shape) else 1
     if vk == 'b':
@@ -61,6 +61,8 @@ def gen_rhs(rng, vk, shape, form):
         arr = np.array(rng.sample(range(9000, 9900), size), dtype=np.int64)
     elif vk == 'f':
         arr = np.array(rng.sample(range(9000, 9900), size), dtype=float) + 0.5
+        if rng.random() < 0.25:
+            arr = arr.astype(np.float32)
     else:
         arr = np.empty(size, dtype=object)
         for k in range(size):
@@ -75,6 +77,8 @@ def gen_case(rng, ak=None, vk=None, form=None, iks=None, cast=None, spelling=Non
     vk = vk or rng.choice('bifs')
     sp = gen.spec(rng, ndim=len(iks) if iks else None, mindim=1, maxdim=4, minsize=1, maxsize=4, dtype=ak)
     nd = len(sp["dims"])
+    if ak == 'i' and rng.random() < 0.3:
+        sp["values"] = sp["values"] + 2 ** 24 + 1          # integers a float32 cannot hold exactly
     spelling = spelling or rng.choice(SPELLINGS)
     idx, ikinds = [], []
     if spelling == 'ndmask':
